@@ -96,3 +96,8 @@ CORPUS += [
     Mut('c10-benign-skyline-epochs-searched-in-a-contiguous-copy', BD, '', "        indices_x = torch.searchsorted(times, x, right=True) - 1\n",
         "        indices_x = torch.searchsorted(times.contiguous(), x, right=True) - 1\n", mode='text', benign=True),
 ]
+CORPUS += [
+    Mut('c10-kernel-handed-the-raw-frequencies', TL, '', "                self.tree_model.postorder,\n                mats,\n                frequencies,\n                probs,\n            )\n\n            if torch.any(torch.isinf(log_p)):",
+        "                self.tree_model.postorder,\n                mats,\n                self.subst_model.frequencies,\n                probs,\n            )\n\n            if torch.any(torch.isinf(log_p)):", mode='text',
+        expect=[('C10.R', 'evolution.tree_likelihood::TreeLikelihoodModel::kernels-receive-the-same-freqs')]),
+]
